@@ -56,6 +56,8 @@ type J2TCase struct {
 	TextB   B       `json:"textb,omitempty"`
 	O       J2TOpts `json:"o"`
 	Seed    int64   `json:"seed"`
+	// Unq: the body is not a JSON document but bare text for a string-typed root (TextB holds it)
+	Unq bool `json:"unq,omitempty"`
 }
 
 // ---- JSON text printing with spelling variants ----
@@ -384,6 +386,9 @@ func (c *c02) run(jc J2TCase) {
 		text = []byte(printJX(jc.J, rand.New(rand.NewSource(jc.Seed)), jc.Variant == "b64-escaped", c.prop == "c16" || oneDefectClass(jc.Variant)))
 	}
 	d, err := parseChecked(text)
+	if jc.Unq {
+		d, err = parseChecked([]byte(`""`)) // the specification puts the bare text in (Trace_J2T)
+	}
 	if err != nil {
 		die("the harness printed JSON its own reader rejects: %v: %q", err, text)
 	}
@@ -457,8 +462,49 @@ func (c *c02) run(jc J2TCase) {
 	tb := B(text)
 	c.out.Emit(map[string]interface{}{"ev": "J2T", "d": d, "s2i": jc.O.S2i, "nob64": jc.O.Nob64, "disallow": jc.O.Disallow,
 		"wreq": jc.O.Wreq, "wdef": jc.O.Wdef, "wopt": jc.O.Wopt, "optbm": jc.O.Optbm, "usedflt": jc.O.Usedflt, "vm": jc.O.Vm,
-		"variant": jc.Variant, "res": rs, "text": string(text),
-		"case": J2TCase{Desc: &c.cur, Variant: jc.Variant, TextB: tb, O: jc.O}})
+		"variant": jc.Variant, "res": rs, "text": string(text), "unq": jc.Unq, "raw": tb,
+		"case": J2TCase{Desc: &c.cur, Variant: jc.Variant, TextB: tb, O: jc.O, Unq: jc.Unq}})
+}
+
+// genRootScalar (X02, beyond the listed properties): root descriptors that are not structs, with JSON documents and - for
+// string-typed roots - bare text bodies
+func (c *c02) genRootScalar(seed int64, base, n int, withBare bool) {
+	roots := []TyJ{{T: tSTR}, {T: tSTR, N: "binary"}, {T: tBOOL}, {T: tI8}, {T: tI16}, {T: tI32}, {T: tI64}, {T: tDBL},
+		{T: tLIST, A: []TyJ{{T: tSTR}}}, {T: tMAP, A: []TyJ{{T: tSTR}, {T: tI32}}}, {T: tSET, A: []TyJ{{T: tI64}}}}
+	bare := []string{"hello", "aGVsbG8=", "aGk=", "aGk", "a", "a b", " lead", "trail ", "12", "-0", "1.5e3", "true", "null", "{", "[1]", "a\"b", "a\\b", "tab\there",
+		"é中😀", "line\nbreak", "\u0001ctl", "AAAA", "////", "++++", "=", "a,b", strings.Repeat("x", 300), strings.Repeat("QUJD", 100)}
+	i := 0
+	for _, rt := range roots {
+		d := DescJ{Structs: map[string][]FldJ{}, From: rt, To: rt}
+		for k := 0; k < n; k++ {
+			r := rand.New(rand.NewSource(seed*1000003 + int64(i)))
+			o := J2TOpts{S2i: r.Intn(2) == 0, Nob64: r.Intn(2) == 0, Wreq: true}
+			if base+i >= startAt {
+				c.setDesc(d, c.popts(o))
+				x := genDoc(r, c.cur.From, c.cur, 0, o)
+				fixJX(&x)
+				jc := J2TCase{Variant: "random", J: &x, O: o, Seed: r.Int63()}
+				c.out.Begin(base+i, jc)
+				c.run(jc)
+			}
+			i++
+		}
+		if rt.T != tSTR || !withBare {
+			continue
+		}
+		for _, b := range bare {
+			for _, nob64 := range []bool{false, true} {
+				if base+i >= startAt {
+					o := J2TOpts{Nob64: nob64, Wreq: true}
+					c.setDesc(d, c.popts(o))
+					jc := J2TCase{Variant: "bare", TextB: B(b), O: o, Unq: true}
+					c.out.Begin(base+i, jc)
+					c.run(jc)
+				}
+				i++
+			}
+		}
+	}
 }
 
 // ---- random documents conforming to a type ----
@@ -682,7 +728,9 @@ func c02Main(args map[string]string) {
 			c.run(jc)
 		})
 	}
-	if n := atoi(args["n"]); n > 0 {
+	if n := atoi(args["rootscalar"]); n > 0 {
+		c.genRootScalar(int64(atoi(args["seed"])), idx, n, args["bare"] != "0")
+	} else if n := atoi(args["n"]); n > 0 {
 		c.genRandom(int64(atoi(args["seed"])), idx, n)
 	}
 	fmt.Printf("c02 cases=%d events=%d\n", c.cases, out.n)
